@@ -447,16 +447,26 @@ async fn unread_at_default_windows(writer_is_client: bool, bidi: bool, k: usize,
     let mut accepted: Vec<Box<dyn std::any::Any + Send>> = vec![];
     let mut writers = vec![];
     let mut filled = 0u64;
-    for _ in 0..k {
+    for i in 0..k {
         let chunk = vec![0x5au8; 64 * 1024];
+        // once unread streams exist, a further stream that cannot even be opened and accepted is
+        // already the blockage the property excludes (the first one failing is a harness problem)
+        let blocked = |rep: &mut Report, what: &str| {
+            if i == 0 {
+                rep.inconclusive(format!("{ctx}: {what}"));
+            } else {
+                let d = format!("with {i} accepted-but-unread stream(s) holding {filled} bytes, the next stream could not be {what} within 5 s");
+                rep.violation(format!("C07|blocked|stall=UnreadData|stalled={}|victim=default-windows", if bidi { "bi" } else { "uni" }), d.clone(), wit(d));
+            }
+        };
         if bidi {
             let Waited::Done(Ok(Ok((mut s, sr)))) = within(Duration::from_secs(5), async { Ok::<_, String>(w.open_bi().await.map_err(|e| e.to_string())?.await.map_err(|e| e.to_string())) }).await else {
-                return rep.inconclusive(format!("{ctx}: open stalled stream"));
+                return blocked(rep, "opened");
             };
-            let _ = s.write_all(b"stalled").await;
+            let _ = within(Duration::from_secs(2), s.write_all(b"stalled")).await;
             match within(Duration::from_secs(5), r.accept_bi()).await {
                 Waited::Done(Ok(x)) => accepted.push(Box::new(x)),
-                _ => return rep.inconclusive(format!("{ctx}: accept stalled stream")),
+                _ => return blocked(rep, "accepted"),
             }
             // write until flow control stops us (no progress for 400 ms) or 16 MiB
             while filled < 16 << 20 {
@@ -468,12 +478,12 @@ async fn unread_at_default_windows(writer_is_client: bool, bidi: bool, k: usize,
             writers.push((Some(s), Some(sr), None));
         } else {
             let Waited::Done(Ok(Ok(mut s))) = within(Duration::from_secs(5), async { Ok::<_, String>(w.open_uni().await.map_err(|e| e.to_string())?.await.map_err(|e| e.to_string())) }).await else {
-                return rep.inconclusive(format!("{ctx}: open stalled stream"));
+                return blocked(rep, "opened");
             };
-            let _ = s.write_all(b"stalled").await;
+            let _ = within(Duration::from_secs(2), s.write_all(b"stalled")).await;
             match within(Duration::from_secs(5), r.accept_uni()).await {
                 Waited::Done(Ok(x)) => accepted.push(Box::new(x)),
-                _ => return rep.inconclusive(format!("{ctx}: accept stalled stream")),
+                _ => return blocked(rep, "accepted"),
             }
             while filled < 16 << 20 {
                 match within(ms(400), s.write_all(&chunk)).await {
@@ -558,8 +568,10 @@ pub fn run(args: &Args) -> Report {
         rt.block_on(async {
             for writer_is_client in [true, false] {
                 for bidi in [false, true] {
-                    for k in if args.thorough { vec![1usize, 2, 5] } else { vec![1] } {
-                        if !args.thorough && (writer_is_client != bidi) == multi {
+                    for k in if args.thorough { vec![1usize, 2, 5, 8] } else { vec![1, 5] } {
+                        // quick: one combination per (writer, kind) for k = 1; k = 5 (more unread bytes than
+                        // four stream windows) once per writer role, uni, multi-thread runtime
+                        if !args.thorough && ((k == 1 && (writer_is_client != bidi) == multi) || (k == 5 && (bidi || !multi))) {
                             continue;
                         }
                         unread_at_default_windows(writer_is_client, bidi, k, &mut rep).await;
